@@ -272,8 +272,27 @@ pub fn run(ctx: &Ctx) {
                 }
             }
         }
-        // public: each verifies the other's signatures; deterministic pair byte-identical
         let kps = tok::keypairs(bx, &mut g, 1);
+        // payload types with a non-empty SUFFIX ("v4x.local."): each backend seals, the OTHER one unseals — the header the
+        // two authenticate must be the specification's version || suffix || purpose for both
+        for purpose in ["local", "public"] {
+            let Some(kp) = kps.first() else { continue };
+            let (sealk, unsealk) = if purpose == "local" { let k = g.bytes(32); (k.clone(), k) } else { (kp.sk.clone(), kp.pk.clone()) };
+            for (p, q) in [(bx, by), (by, bx)] {
+                for len in [0usize, 17, 64] {
+                    rep.evaluations += 1;
+                    let msg = content(&mut g, len);
+                    match (p.seal_x)(purpose, &sealk, &msg, b"f", b"ia") {
+                        Ok(t) => match (q.unseal_x)(purpose, &unsealk, &t, b"ia") {
+                            Ok((m2, _)) if m2 == msg => rep.nontrivial(format!("sib|{x}|{purpose}|suffix")),
+                            other => rep.violation(&format!("c03.siblings.{x}.{purpose}.suffix-accept"), format!("{} rejects {}'s {purpose} token of a payload type with suffix \"x\": {:?}", q.name, p.name, other.map(|z| z.0.len())), json!({"token": t, "key": hex::encode(&unsealk), "a": hex::encode(b"ia")})),
+                        },
+                        Err(e) => rep.violation(&format!("c03.siblings.{x}.{purpose}.suffix-seal"), format!("{} cannot seal a payload type with suffix \"x\": {e}", p.name), json!({"key": hex::encode(&sealk)})),
+                    }
+                }
+            }
+        }
+        // public: each verifies the other's signatures; deterministic pair byte-identical
         // every message length 0..=600 (fixed 10-byte footer, 12-byte assertion): each backend signs, the OTHER one
         // verifies — a pre-authentication encoding that goes wrong only in some length window is self-consistent
         // inside one backend and shows only across the pair
